@@ -89,17 +89,57 @@ def detect(mdir, ids):
         for pid in ids:
             t0 = time.time()
             rc, out = sh([os.path.join(VERIF, "check"), pid, "--tier", "quick"], cwd=VERIF)
-            rules = sorted(set(re.findall(r"^  \[[a-z]+/([^\]]+)\]", out, re.M)))
-            first = ""
-            m = re.search(r"^  \[[^\]]+\] (.*)$", out, re.M)
-            if m:
-                first = m.group(1)[:300]
-            fired[pid] = dict(exit=rc, rules=rules[:8], first=first, wall_s=round(time.time() - t0, 1))
-            if rc == 2:
-                m = re.search(r"INCONCLUSIVE.*", out)
-                fired[pid]["inconclusive"] = m.group(0)[:300] if m else out[-300:]
+            fired[pid] = parse_fired(rc, out, t0)
     finally:
         sh(["git", "-C", "/repo", "checkout", "--", "."])
+    return fired
+
+
+def parse_fired(rc, out, t0):
+    rules = sorted(set(re.findall(r"^  \[[a-z]+/([^\]]+)\]", out, re.M)))
+    first = ""
+    m = re.search(r"^  \[[^\]]+\] (.*)$", out, re.M)
+    if m:
+        first = m.group(1)[:300]
+    r = dict(exit=rc, rules=rules[:8], first=first, wall_s=round(time.time() - t0, 1))
+    if rc == 2:
+        m = re.search(r"INCONCLUSIVE.*", out)
+        r["inconclusive"] = m.group(0)[:300] if m else out[-300:]
+    return r
+
+
+def detect_scratch(mdir, ids, jobs=4, tier="quick"):
+    """Like detect, but never touches /repo's working tree: a scratch worktree of /repo gets the patch,
+    a scratch copy of the harness is pointed at it, the checks write under a scratch output dir.
+    Everything is removed afterwards. Used to evaluate many seeded changes in parallel."""
+    mdir = os.path.abspath(mdir)
+    name = os.path.basename(mdir.rstrip("/"))
+    base = "/tmp/sd-%s-%d" % (name, os.getpid())
+    wt, hz, outd = base + "-wt", base + "-h", base + "-o"
+    rc, out = sh(["git", "-C", "/repo", "worktree", "add", "-q", "--detach", wt, "HEAD"])
+    if rc != 0:
+        print(out)
+        return None
+    fired = {}
+    try:
+        rc, out = sh(["git", "apply", os.path.join(mdir, "patch.diff")], cwd=wt)
+        if rc != 0:
+            print("patch does not apply:\n" + out)
+            return None
+        sh(["rsync", "-a", "--exclude", "target*", os.path.join(VERIF, "harness") + "/", hz + "/"])
+        ct = os.path.join(hz, "monitor", "Cargo.toml")
+        with open(ct) as f:
+            t = f.read()
+        with open(ct, "w") as f:
+            f.write(t.replace('path = "/repo"', 'path = "%s"' % wt))
+        env = dict(ENV, VERIF_HARNESS=hz, VERIF_OUT=outd, VERIF_JOBS=str(jobs))
+        for pid in ids:
+            t0 = time.time()
+            rc, out = sh([os.path.join(VERIF, "check"), pid, "--tier", tier], cwd=VERIF, env=env)
+            fired[pid] = parse_fired(rc, out, t0)
+    finally:
+        sh(["git", "-C", "/repo", "worktree", "remove", "--force", wt])
+        sh(["rm", "-rf", hz, outd, wt])
     return fired
 
 
@@ -131,17 +171,20 @@ def main():
         print(json.dumps(res, indent=1))
         print("CONFIRMED" if ok else "NOT-CONFIRMED")
         sys.exit(0 if ok else 1)
-    if cmd == "detect":
+    if cmd in ("detect", "detect-scratch"):
         mdir = sys.argv[2]
         ids = sys.argv[3:] or IDS
-        fired = detect(mdir, ids)
+        fired = detect(mdir, ids) if cmd == "detect" else detect_scratch(mdir, ids)
         if fired is None:
             sys.exit(2)
         meta = load_meta(mdir)
         meta.setdefault("detected_by", {})
         for pid, r in fired.items():
             meta["detected_by"][pid] = r
-        meta["detect_ran"] = "git -C /repo apply patch.diff; ./check <ID> --tier quick for " + ",".join(ids) + "; git -C /repo checkout -- ."
+        if cmd == "detect":
+            meta["detect_ran"] = "git -C /repo apply patch.diff; ./check <ID> --tier quick for " + ",".join(ids) + "; git -C /repo checkout -- ."
+        else:
+            meta["detect_ran"] = "scratch worktree of /repo + patch.diff, scratch copy of /verif/harness pointed at it; ./check <ID> --tier quick for " + ",".join(ids) + "; all removed afterwards"
         save_meta(mdir, meta)
         hits = [p for p, r in fired.items() if r["exit"] == 1]
         inc = [p for p, r in fired.items() if r["exit"] == 2]
@@ -150,20 +193,39 @@ def main():
             print("   %s %s :: %s" % (p, fired[p]["rules"][:3], fired[p]["first"][:160]))
         sys.exit(0)
     if cmd == "matrix":
+        # seeded.py matrix [--par N] [name-prefix ...]: every seeded change x all 20 quick checks, N changes at a time in scratch copies
+        import concurrent.futures
+        args = sys.argv[2:]
+        par = 4
+        if "--par" in args:
+            par = int(args[args.index("--par") + 1])
+            del args[args.index("--par"):args.index("--par") + 2]
         root = os.path.join(VERIF, "seeded")
-        rows = {}
-        for d in sorted(os.listdir(root)):
+        try:
+            with open(os.path.join(root, "MATRIX.json")) as f:
+                rows = json.load(f)
+        except (OSError, ValueError):
+            rows = {}
+        todo = [d for d in sorted(os.listdir(root)) if os.path.isfile(os.path.join(root, d, "patch.diff")) and (not args or any(d.startswith(a) for a in args))]
+
+        def one(d):
             mdir = os.path.join(root, d)
-            if not os.path.isfile(os.path.join(mdir, "patch.diff")):
-                continue
-            fired = detect(mdir, IDS)
-            meta = load_meta(mdir)
-            meta["detected_by"] = fired
-            save_meta(mdir, meta)
-            rows[d] = dict(breaks=meta.get("breaks"), fired=[p for p, r in fired.items() if r["exit"] == 1], inconclusive=[p for p, r in fired.items() if r["exit"] == 2])
-            print(d, rows[d], flush=True)
-        with open(os.path.join(root, "MATRIX.json"), "w") as f:
-            json.dump(rows, f, indent=1)
+            return d, detect_scratch(mdir, IDS, jobs=max(2, 16 // par))
+
+        with concurrent.futures.ThreadPoolExecutor(max_workers=par) as ex:
+            for d, fired in ex.map(one, todo):
+                if fired is None:
+                    print(d, "FAILED", flush=True)
+                    continue
+                mdir = os.path.join(root, d)
+                meta = load_meta(mdir)
+                meta["detected_by"] = fired
+                meta["detect_ran"] = "scratch worktree of /repo + patch.diff, scratch copy of /verif/harness pointed at it; ./check <ID> --tier quick for all 20; all removed afterwards"
+                save_meta(mdir, meta)
+                rows[d] = dict(breaks=meta.get("breaks"), fired=[p for p, r in fired.items() if r["exit"] == 1], inconclusive=[p for p, r in fired.items() if r["exit"] == 2])
+                print(d, rows[d], flush=True)
+                with open(os.path.join(root, "MATRIX.json"), "w") as f:
+                    json.dump(rows, f, indent=1)
         sys.exit(0)
     print(__doc__)
     sys.exit(2)
